@@ -255,6 +255,9 @@ func verifyFunction(P *Program, db *SpecDB, ti *TypeInfo, fn *ssa.Function, c *C
 	}
 	// axioms
 	for _, ax := range db.Axioms {
+		if ax.PkgPath != "" && P.lookupPkg(ax.PkgPath) == nil {
+			continue // an axiom of a package that is not part of this load (like the contracts of that package)
+		}
 		env := &Env{e: e, vars: map[string]*Val{}, st: st, old: st, pkgPath: ax.PkgPath, imports: ax.Imports}
 		t, err := env.evalBool(ax.E)
 		if err != nil {
